@@ -238,7 +238,9 @@ def unit():
     m.requires("implies(self._storage_lock.depth >= 1, moninv(self))", "a-caller-holding-the-lock-kept-the-monitor-invariant")
     # other processes may have stored in the meantime (environment step at the lock): the state is NOT promised unchanged on these exits
     m.raises("IndexError", when="self._storage_lock.depth >= 1 and not st(self._index, global_identifier)",
-             ensures=["self._storage_lock.depth == old(self._storage_lock.depth)"])
+             ensures=["self._storage_lock.depth == old(self._storage_lock.depth)",
+                      "implies(old(self._storage_lock.depth) >= 1, %s)" % unch,
+                      "implies(old(self._storage_lock.depth) >= 1, same(self._opened_files_for_reading, old(self._opened_files_for_reading)))"])
     m.raises("IndexError", when="self._storage_lock.depth == 0", iff=False, ensures=["self._storage_lock.depth == old(self._storage_lock.depth)"])
     m.modifies("self._opened_files_for_reading", "RLock.depth[*]", "FHandle.pos[*]", "FileSystem.exists[*]", *shared)
     m.ensures("self._storage_lock.depth == old(self._storage_lock.depth)")
@@ -276,11 +278,49 @@ def unit():
               "storage-reset")
     m.ensures("self._storage_lock.depth == 0")
 
+    # __iter__: holds the lock for the whole iteration, yields the texts of the stored ids in ascending id order, skipping gaps
+    m = C.method("__iter__", {}, yields=STR, locals={"i": INT})
+    m.requires("self._storage_lock.depth == 0", "lock-not-held-by-the-caller")
+    m.modifies("self._opened_files_for_reading", "RLock.depth[*]", "FHandle.pos[*]", "FileSystem.exists[*]", *shared)
+    m.at_call("after", "__enter__", ghost="g_idx0 = self._index")
+    m.at_call("after", "__enter__", ghost="g_paths0 = self._file_paths")
+    m.at_call("after", "__enter__", ghost="g_lines0 = fs().lines")
+    m.ghost_entry("g_src = lam(i, 0)")
+    m.ghost_entry("g_dst = lam(i, 0)")
+    m.ghost_entry("g_len0 = 0")
+    m.ghost_entry("g_idx0 = self._index")
+    m.ghost_entry("g_paths0 = self._file_paths")
+    m.ghost_entry("g_lines0 = fs().lines")
+    lp = m.loop(1)
+    lp.invariant("self._storage_lock.depth == 1 and moninv(self) and same(self._index, g_idx0) and same(self._file_paths, g_paths0)"
+                 " and same(fs().lines, g_lines0) and len(_seq1) == len(self._index) and forall(t, 0, len(_seq1), _seq1[t] == t, trigger=_seq1[t])",
+                 "lock-held-for-the-whole-iteration:shared-state-frozen")
+    lp.invariant("forall(k, 0, len(yielded), 0 <= g_src[k] and g_src[k] < _i1 and st(self._index, g_src[k]) and g_dst[g_src[k]] == k"
+                 " and yielded[k] == text_of(self, g_src[k]), trigger=yielded[k])", "every-yielded-text-is-the-text-stored-under-some-id")
+    lp.invariant("forall(k, 0, len(yielded), forall(k2, k + 1, len(yielded), g_src[k] < g_src[k2]))", "ascending-id-order,each-id-once")
+    lp.invariant("forall(p, 0, _i1, implies(st(self._index, p), 0 <= g_dst[p] and g_dst[p] < len(yielded) and g_src[g_dst[p]] == p))",
+                 "no-stored-id-below-the-cursor-was-skipped")
+    lp.ghost_at_begin("g_len0 = len(yielded)")
+    lp.ghost_at_end("g_src = ite(len(yielded) > g_len0, aset(g_src, len(yielded) - 1, _i1 - 1), g_src)")
+    lp.ghost_at_end("g_dst = ite(len(yielded) > g_len0, aset(g_dst, _i1 - 1, len(yielded) - 1), g_dst)")
+    m.witness("src", ArrS(INT, INT), bound_to="g_src")
+    m.ensures("self._storage_lock.depth == 0", "lock-released-at-the-end")
+    m.ensures("forall(k, 0, len(yielded), 0 <= src[k] and src[k] < len(self._index) and st(self._index, src[k])"
+              " and yielded[k] == text_of(self, src[k]), trigger=yielded[k])", "yields-only-stored-texts")
+    m.ensures("forall(k, 0, len(yielded), forall(k2, k + 1, len(yielded), src[k] < src[k2]))", "in-ascending-id-order,each-once")
+    m.witness("dst", ArrS(INT, INT), bound_to="g_dst")
+    m.witness("idx0", IDX, bound_to="g_idx0")           # the index as it was while the lock was held (other processes may store afterwards)
+    m.ensures("forall(p, 0, len(idx0), implies(st(idx0, p), 0 <= dst[p] and dst[p] < len(yielded) and src[dst[p]] == p))",
+              "every-id-stored-when-the-lock-was-taken-is-yielded(gaps-skipped)")
+    m.ensures("len(idx0) >= len(old(self._index)) and forall(p, 0, len(old(self._index)), implies(st(old(self._index), p), st(idx0, p)))",
+              "in-particular-every-id-stored-before-the-call")
+
     U.library("str", {"x": INT}, STR)
-    for f in ("__len__", "__setitem__", "_is_file_open_for_read", "_open_file_for_read", "__getitem__", "is_contiguous", "flush"):
+    for f in ("__len__", "__setitem__", "_is_file_open_for_read", "_open_file_for_read", "__getitem__", "is_contiguous", "flush", "__iter__"):
         U.verify("TextFileStorage", f)
     U.assume("multiprocessing primitives (DESIGN §4): the RLock gives mutual exclusion and is re-entrant; manager list / Value behave as their "
              "local counterparts while the lock is held; print(..., flush=True) appends one complete line; files are append-only")
     U.assume("ids >= 0; texts are single lines without a trailing carriage return; one writer file per process")
-    U.assume("TextFileStorage.open / close (file-name building, 'w' / 'a' modes) are assumed contracts; __iter__ is covered by the bounded layer")
+    U.assume("TextFileStorage.open / close (file-name building, 'w' / 'a' modes) are assumed contracts; during an iteration the consumer of "
+             "__iter__ does not modify the storage from the same thread (the re-entrant lock would let it)")
     return U
